@@ -113,8 +113,14 @@ def main():
         results = run.phase_b(harnesses, jobs=jobs)
         violations, inconclusive, known_hits = [], [], []
         known = [k for k in load_known() if k.get("property") == prop]
+        not_decided = []
         for res in results:
-            if res.status == "inconclusive":
+            if res.status == "inconclusive" and res.h.optional and (
+                    "wall cap" in res.reason or "out of memory" in res.reason or "ran out of memory" in res.reason
+                    or "no verdict" in res.reason):
+                res.status = "not_decided"
+                not_decided.append(res)
+            elif res.status == "inconclusive":
                 inconclusive.append(res)
             elif res.status == "failed":
                 # replay every distinct failing check that came with values
@@ -171,6 +177,9 @@ def main():
         cov["harnesses"] = len(results)
         cov["harnesses_held"] = len(held)
         cov["harnesses_inconclusive"] = len(inconclusive)
+        cov["harnesses_not_decided"] = [dict(harness=r.h.name, reason=r.reason) for r in not_decided]
+        for r in not_decided:
+            print("NOT-DECIDED %s (deep harness, outside the claim of this run): %s" % (r.h.name, r.reason[:200]))
         cov["solver_seconds"] = round(sum(r.verif_time or 0 for r in results), 1)
         cov["queries_discharged"] = sum(r.n_checks + r.n_covers for r in held)
         cov["samples"] = [r.summary() for r in results]
